@@ -119,6 +119,7 @@ Definition show_lentry (e : lentry) : string :=
   match e with
   | LCall id q => show_N id ++ (if q then "q" else "e")
   | LTok t => "p" ++ show_token t
+  | LTyped => "pT"
   | LAbsent => "pA"
   | LPullErr c => "pE" ++ show_Z c
   end.
